@@ -510,6 +510,20 @@ Definition arity_error : string * list tpart :=
 
 Definition INF_MSG : cstr := s2z "Numerical overflow occurred. Does your expression generate very large numbers?".
 
+(* the list comprehension of eval_node: children left to right, the first exception propagates *)
+Section Children.
+  Variables (A B : Type) (ev : A -> outcome B).
+  Fixpoint eval_children (l : list A) : outcome (list B) :=
+    match l with
+    | [] => Ret []
+    | x :: r => match ev x with
+                | Raise e => Raise e
+                | Ret v => match eval_children r with Raise e => Raise e | Ret vs => Ret (v :: vs) end
+                end
+    end.
+End Children.
+Arguments eval_children {A B} ev l.
+
 Section Eval.
   Variable val : Type.
   Variable isnan isinf : val -> bool.
@@ -543,18 +557,10 @@ Section Eval.
     else handle tbl fn_hs (fun _ => name) (f args).
 
   Fixpoint eval_node (n : node) : outcome val :=
-    let eval_list := fix eval_list (l : list node) : outcome (list val) :=
-      match l with
-      | [] => Ret []
-      | x :: r => match eval_node x with
-                  | Raise e => Raise e
-                  | Ret v => match eval_list r with Raise e => Raise e | Ret vs => Ret (v :: vs) end
-                  end
-      end in
     match n with
     | Leaf v => post_check v
     | Fn name validated expected f args =>
-        match eval_list args with
+        match eval_children eval_node args with
         | Raise e => Raise e
         | Ret vs => if existsb isnan vs then Ret nanv
                     else match call_function name validated expected f vs with
@@ -563,7 +569,7 @@ Section Eval.
                          end
         end
     | Op f children =>
-        match eval_list children with
+        match eval_children eval_node children with
         | Raise e => Raise e
         | Ret vs => if existsb isnan vs then Ret nanv
                     else match f vs with Raise e => Raise e | Ret v => post_check v end
